@@ -255,6 +255,33 @@ def run_case(ctx, rng, ci):
                               % (" ".join(cmd), want_names, bad), case)
                 break
     ctx.case("%d|%s|file-order|%s" % (F, fmts, cmd[1]), F >= 2)
+    # (c1) -m obsfcst -q: one column per (quantile level, file), each named after its file - a name keeps its numbers in any order
+    qs = ds["inputs"][0]["quantiles"] if kind == "prob" else []
+    if len(qs) >= 2 and F >= 2 and all(i["quantiles"] == qs for i in ds["inputs"]) and all("obs" in i["has"] for i in ds["inputs"]):
+        qcmd = ["-m", "obsfcst", "-q", ",".join(gen.fnum(q) for q in qs[:3]), "-x", rng.choice(["leadtime", "location", "no"]), "-type", "csv"]
+        ref = None
+        for order in orders[:6]:
+            o = runner.run_cli([pb[i] for i in order] + qcmd)
+            ctx.count("file_orders")
+            if o.status != "ok":
+                if o.status == "crash":
+                    ctx.violation("file-order-run-failed", str(o.brief()), case)
+                break
+            h, rows = runner.parse_csv(o.stdout)
+            if len(set(h)) != len(h):
+                break
+            # (the obs column and a conflicting latitude are the first file's: only the columns named after a file are compared)
+            fnames = [i["name"] for i in ds["inputs"]]
+            cols = {h[j].strip(): [r[j] for r in rows] for j in range(len(h))
+                    if any(h[j].strip() == n or h[j].strip().startswith(n + " ") for n in fnames)}
+            ctx.count("obsfcst_quantile_orders")
+            if ref is None:
+                ref = cols
+            elif cols != ref:
+                bad = sorted(n for n in cols if cols[n] != ref.get(n))
+                ctx.violation("file-order-changes-scores|obsfcst-quantile-columns", "verif %s: with file order %s the columns %s hold other numbers "
+                              "than with the first order" % (" ".join(qcmd), [ds["inputs"][i]["name"] for i in order], bad), case)
+                break
     # (c2) the -T commands, files in the given and in the reversed order
     noobs = [i["name"] for i in ds["inputs"] if "obs" not in i["has"]]
     for cmd in commands[8:]:
